@@ -1380,6 +1380,30 @@ func libTransfer(fn *ssa.Function, args []fval) (fval, error) {
 			before, after, found := strings.Cut(a, b)
 			return fval{tuple: []fval{{k: constant.MakeString(before), t: types.Typ[types.String]}, {k: constant.MakeString(after), t: types.Typ[types.String]}, {k: constant.MakeBool(found), t: boolT}}}, nil
 		}
+	case "strings.Split", "strings.SplitN", "strings.Fields":
+		strList := func(ss []string) fval {
+			l := &ListV{T: types.NewSlice(types.Typ[types.String])}
+			for _, x := range ss {
+				l.Elems = append(l.Elems, &CVal{V: constant.MakeString(x), T: types.Typ[types.String]})
+			}
+			if ss == nil {
+				return fval{isNil: true, t: l.T}
+			}
+			return fval{cv: l, t: l.T}
+		}
+		switch {
+		case name == "strings.Fields" && len(args) == 1 && args[0].k != nil && args[0].k.Kind() == constant.String:
+			return strList(strings.Fields(constant.StringVal(args[0].k))), nil
+		case name == "strings.Split":
+			if a, b, ok := twoStrings(args); ok {
+				return strList(strings.Split(a, b)), nil
+			}
+		case name == "strings.SplitN" && len(args) == 3 && args[2].k != nil && args[2].k.Kind() == constant.Int:
+			if a, b, ok := twoStrings(args[:2]); ok {
+				n, _ := constant.Int64Val(args[2].k)
+				return strList(strings.SplitN(a, b, int(n))), nil
+			}
+		}
 	case "strings.Compare":
 		if a, b, ok := twoStrings(args); ok {
 			return fval{k: constant.MakeInt64(int64(strings.Compare(a, b))), t: types.Typ[types.Int]}, nil
